@@ -1,6 +1,7 @@
 import Rfsm.Audit
 import Rfsm.Proofs.ExprOps
 import Rfsm.Proofs.ExprLexerLemmas
+import Rfsm.Proofs.ExprFuel
 /-!
 # C11 — Expression parsing and evaluation always terminate with a value or an error
 
@@ -90,6 +91,45 @@ theorem C11_lexer_progress (stops : List Ch) (inp : Str) :
       (nextToken stops inp).1.isError) :=
   ⟨nextToken_length stops inp, nextToken_progress stops inp⟩
 #assert_axioms C11_lexer_progress
+
+/-- the parser never reaches `panic!("Internal error")`: for ALL strings -/
+theorem C11_parser_no_panic (text : Str) : parse text ≠ .panic := parse_no_panic text
+#assert_axioms C11_parser_no_panic
+
+/-- the same for the three mutually recursive parser functions, any fuel, any input, any stack
+that the parser itself can build (`StackOK`: expressions, identifiers, operators, `.`) -/
+theorem C11_parser_functions_no_panic (fuel : Nat) :
+    (∀ stops inp exprs stack, StackOK stack → parseSub fuel stops inp exprs stack ≠ .panic) ∧
+    (∀ stop inp acc, parseArgs fuel stop inp acc ≠ .panic) ∧
+    (∀ stop inp acc, parseMembers fuel stop inp acc ≠ .panic) := parser_no_panic fuel
+#assert_axioms C11_parser_functions_no_panic
+
+/-- the fuel of the parser model is sufficient: termination of the model's `parse` is real
+termination, not an artefact of the fuel (for ALL strings) -/
+theorem C11_parser_fuel_sufficient (text : Str) : parse text ≠ .outOfFuel :=
+  parse_fuel_sufficient text
+#assert_axioms C11_parser_fuel_sufficient
+
+/-- **Parsing, all strings**: an expression, an error, or the end-of-input livelock — nothing else.
+Missing for the parsing half of `C11_full`: the `livelock` case, which the unchanged code has
+(`C11_counterexample_livelock`). -/
+theorem C11_parse_total_partial (text : Str) :
+    (∃ e, parse text = .ok e) ∨ (∃ e, parse text = .err e) ∨ parse text = .livelock := by
+  have h1 := parse_no_panic text
+  have h2 := parse_fuel_sufficient text
+  cases h : parse text with
+  | ok e => exact Or.inl ⟨e, rfl⟩
+  | err e => exact Or.inr (Or.inl ⟨e, rfl⟩)
+  | livelock => exact Or.inr (Or.inr rfl)
+  | panic => exact absurd h h1
+  | outOfFuel => exact absurd h h2
+#assert_axioms C11_parse_total_partial
+
+/-- `stack_to_expression` shortens its stack on every round: `stack.length + 1` rounds suffice -/
+theorem C11_stackToExpr_fuel_sufficient (stack : List Item) :
+    stackToExpr (stackFuel stack) stack ≠ .outOfFuel :=
+  stackToExpr_fuel _ _ (by simp [stackFuel])
+#assert_axioms C11_stackToExpr_fuel_sufficient
 
 /-- no panic from arithmetic other than integer `%` -/
 theorem C11_arithmetic_no_panic_partial {D : Type} (ops : DoubleOps D) (cells : Cells D)
